@@ -145,9 +145,16 @@ def flatten(scn: Scn, live=None):
         # spec items order: inline validators, before, on, after, cond, unless; then decorators; then conv
         inline_order = ["validators", "before", "on", "after", "cond", "unless"]
         for g in inline_order:
+            seen_names = {}
             for c in scn.cbs:
-                if c.at == ("t", ti) and c.group == g and c.style in ("name", "callable") and alive(c):
-                    entries.append((g, _prio(c), seq, prov_rank.get(c.provider, -1), c.id, None)); seq += 1
+                if c.at == ("t", ti) and c.group == g and c.style in ("name", "callable"):
+                    # one spec per distinct name: all its providers share the spec's position
+                    key = c.name if c.style == "name" else ("callable", c.id)
+                    if key not in seen_names:
+                        seen_names[key] = seq
+                        seq += 1
+                    if alive(c):
+                        entries.append((g, _prio(c), seen_names[key], prov_rank.get(c.provider, -1), c.id, None))
         for c in scn.cbs:
             if c.at == ("t", ti) and c.style == "decorator" and alive(c):
                 entries.append((c.group, _prio(c), seq, 0, c.id, None)); seq += 1
@@ -179,9 +186,15 @@ def flatten(scn: Scn, live=None):
         for g in ("enter", "exit"):
             entries = []
             seq = 0
+            seen_names = {}
             for c in scn.cbs:
-                if c.at == ("s", si) and c.group == g and c.style in ("name", "callable") and alive(c):
-                    entries.append((_prio(c), seq, prov_rank.get(c.provider, -1), c.id)); seq += 1
+                if c.at == ("s", si) and c.group == g and c.style in ("name", "callable"):
+                    key = c.name if c.style == "name" else ("callable", c.id)
+                    if key not in seen_names:
+                        seen_names[key] = seq
+                        seq += 1
+                    if alive(c):
+                        entries.append((_prio(c), seen_names[key], prov_rank.get(c.provider, -1), c.id))
             for c in scn.cbs:
                 if c.at == ("s", si) and c.group == g and c.style == "decorator" and alive(c):
                     entries.append((_prio(c), seq, 0, c.id)); seq += 1
@@ -520,6 +533,7 @@ def run_impl(scn: Scn):
     except Exception as e:  # class-definition error: the scenario is not a valid machine
         rt.lines.append(f"DEFERR {type(e).__name__}")
         return rt.lines, rt
+    rt.cls, rt.model_cls = cls, model_cls
     rt.model = model_cls()
     if scn.cur0 is not None:
         rt.model.__dict__["_st"] = POOL[scn.cur0]
